@@ -56,7 +56,7 @@ def main():
         "hooks": {
             "guard": "--cfg nomt_verif",
             "enable": "built only through /verif/sim (shadow manifest sim/nomt-shadow compiles /repo/nomt/src against shim crates; sim/.cargo/config.toml sets rustflags --cfg nomt_verif)",
-            "baseline_off_cmd": "cd /repo && cargo nextest run --workspace --no-fail-fast --tool-config-file pb:/w/lib/nextest.toml --profile pb --test-threads 8 --offline || cargo test --workspace --no-fail-fast --offline",
+            "baseline_off_cmd": "cd /repo && cargo nextest run --workspace --no-fail-fast --tool-config-file pb:/w/lib/nextest.toml --profile pb --test-threads 8 --offline; rc=$?; rm -rf /repo/nomt/test; exit $rc",
             "source_commits": hook_commits,
             "add_only": True,
         },
